@@ -86,6 +86,27 @@ impl Drop for Arena {
 // ------------------------------------------------------------------------------------------------
 // zalloc / zfree with guard pages, garbage fill, fault injection and bookkeeping
 
+thread_local! {
+    /// recycled guard-paged mappings keyed by total mapping length (the trailing guard page stays PROT_NONE)
+    static POOL: std::cell::RefCell<std::collections::HashMap<usize, Vec<usize>>> = std::cell::RefCell::new(Default::default());
+}
+
+fn pool_take(map_len: usize) -> Option<usize> {
+    POOL.with(|p| p.borrow_mut().get_mut(&map_len).and_then(|v| v.pop()))
+}
+
+fn pool_give(map: usize, map_len: usize) {
+    POOL.with(|p| {
+        let mut p = p.borrow_mut();
+        let v = p.entry(map_len).or_default();
+        if v.len() < 8 {
+            v.push(map);
+        } else {
+            unsafe { libc::munmap(map as *mut c_void, map_len) };
+        }
+    })
+}
+
 pub struct Block {
     pub ptr: usize,
     pub size: usize,
@@ -110,6 +131,8 @@ pub struct AllocCtl {
     /// keep freed blocks mapped PROT_NONE so that use-after-free faults
     pub quarantine: Vec<(usize, usize)>,
     pub guard: bool,
+    /// freed blocks become PROT_NONE (use-after-free faults) instead of being recycled
+    pub strict_uaf: bool,
 }
 
 impl AllocCtl {
@@ -127,6 +150,7 @@ impl AllocCtl {
             tag: 0,
             quarantine: vec![],
             guard: true,
+            strict_uaf: false,
         });
         b.tag = &*b as *const AllocCtl as usize;
         b
@@ -148,7 +172,11 @@ impl Drop for AllocCtl {
     fn drop(&mut self) {
         self.release_quarantine();
         for b in self.live.drain(..) {
-            unsafe { libc::munmap(b.map as *mut c_void, b.map_len) };
+            if self.strict_uaf {
+                unsafe { libc::munmap(b.map as *mut c_void, b.map_len) };
+            } else {
+                pool_give(b.map, b.map_len);
+            }
         }
     }
 }
@@ -169,24 +197,29 @@ pub unsafe extern "C" fn v_zalloc(opaque: *mut c_void, items: u32, size: u32) ->
     let usable = round_up(bytes, 16);
     let data_len = round_up(usable, PAGE);
     let map_len = data_len + PAGE;
-    let p = libc::mmap(
-        std::ptr::null_mut(),
-        map_len,
-        libc::PROT_READ | libc::PROT_WRITE,
-        libc::MAP_PRIVATE | libc::MAP_ANONYMOUS,
-        -1,
-        0,
-    );
-    if p == libc::MAP_FAILED {
-        ctl.errors.push("harness mmap failed".into());
-        return std::ptr::null_mut();
-    }
-    let base = p as *mut u8;
-    libc::mprotect(base.add(data_len) as *mut c_void, PAGE, libc::PROT_NONE);
+    let base = match if ctl.strict_uaf { None } else { pool_take(map_len) } {
+        Some(m) => m as *mut u8,
+        None => {
+            let p = libc::mmap(
+                std::ptr::null_mut(),
+                map_len,
+                libc::PROT_READ | libc::PROT_WRITE,
+                libc::MAP_PRIVATE | libc::MAP_ANONYMOUS,
+                -1,
+                0,
+            );
+            if p == libc::MAP_FAILED {
+                ctl.errors.push("harness mmap failed".into());
+                return std::ptr::null_mut();
+            }
+            let base = p as *mut u8;
+            libc::mprotect(base.add(data_len) as *mut c_void, PAGE, libc::PROT_NONE);
+            base
+        }
+    };
     let ptr = base.add(data_len - usable);
-    if ctl.garbage != 0 {
-        std::ptr::write_bytes(base, ctl.garbage, data_len);
-    }
+    // recycled mappings always get refilled: the library must not depend on previous contents
+    std::ptr::write_bytes(ptr, ctl.garbage, usable);
     ctl.total_allocs += 1;
     ctl.live.push(Block { ptr: ptr as usize, size: bytes, map: base as usize, map_len });
     ptr as *mut c_void
@@ -211,12 +244,18 @@ pub unsafe extern "C" fn v_zfree(opaque: *mut c_void, ptr: *mut c_void) {
         Some(i) => {
             let b = ctl.live.swap_remove(i);
             ctl.total_frees += 1;
-            // keep it mapped but inaccessible: a later touch is a use-after-free and faults
-            libc::mprotect(b.map as *mut c_void, b.map_len, libc::PROT_NONE);
-            ctl.quarantine.push((b.map, b.map_len));
-            if ctl.quarantine.len() > 64 {
-                let (m, l) = ctl.quarantine.remove(0);
-                libc::munmap(m as *mut c_void, l);
+            if ctl.strict_uaf {
+                // keep it mapped but inaccessible: a later touch is a use-after-free and faults
+                libc::mprotect(b.map as *mut c_void, b.map_len, libc::PROT_NONE);
+                ctl.quarantine.push((b.map, b.map_len));
+                if ctl.quarantine.len() > 64 {
+                    let (m, l) = ctl.quarantine.remove(0);
+                    libc::munmap(m as *mut c_void, l);
+                }
+            } else {
+                // poison, then recycle the mapping (no syscall in the steady state)
+                std::ptr::write_bytes(b.ptr as *mut u8, 0xDD, b.size);
+                pool_give(b.map, b.map_len);
             }
         }
         None => {
